@@ -235,14 +235,15 @@ def run(tier, seed):
         acc.check('only_construct_errors_build', src, objs=objs, kw={})
         for d in datas[:5]:
             cases.append(dict(src=src, op='parse', data=d))
-    # the classes that translate encoding failures (FormatField, BytesInteger, BitsInteger, the string classes, Mapping), alone, nested and under
-    # wrappers that pass the value through: a value they cannot encode (wrong type, out of range, not finite, too large for the float format)
-    # is refused with a ConstructError. (Composites and byte fields given a value of the wrong shape are outside this: Struct.build({}) raising
-    # KeyError is behaviour the library's own tests pin.)
+    # every field class (FormatField, BytesInteger, BitsInteger, Bytes, GreedyBytes, the string classes, Enum, FlagsEnum, Mapping), alone, nested and
+    # under wrappers that pass the value through: a value it cannot encode (wrong type, out of range, not finite, too large for the float format)
+    # is refused with a ConstructError. (Composites given a value of the wrong shape are outside this: the build docstring allows "some list and
+    # dict lookups" on the supplied value to raise IndexError and KeyError, e.g. Struct.build({}).)
     bad = [None, 'x', b'x', '', 1e39, -3.5e38, 65520.0, -65520.0, 1e308, float('inf'), float('-inf'), float('nan'), -1, 256, 2 ** 64, -2 ** 63 - 1, 2 ** 200,
            2.5, [1], {}, (1,), True, 1 + 2j, bytearray(b'ab'), b'ab', 'ab', {'a': 1}, [b'a', 1]]
     plain = [nm for nm, _, _ in G.INT_NAMES] + [nm for nm, _, _ in G.FLOAT_NAMES] + ['BytesInteger(3)', 'BytesInteger(2, signed=True, swapped=True)']
-    leafs = plain + ['VarInt', 'ZigZag', 'Bitwise(BitsInteger(8))', 'Bitwise(BitsInteger(16, signed=True, swapped=True))', 'CString("utf8")', 'PascalString(Byte, "ascii")',
+    leafs = plain + ['Bytes(2)', 'Bytes(0)', 'GreedyBytes', 'HexDump(Bytes(2))', 'Hex(GreedyBytes)', 'Enum(Byte, a=1)', 'Enum(Int16ub, E)', 'FlagsEnum(Byte, a=1)', 'Flag',
+             'Prefixed(Byte, GreedyBytes)', 'FixedSized(3, GreedyBytes)', 'NullTerminated(GreedyBytes)', 'VarInt', 'ZigZag', 'Bitwise(BitsInteger(8))', 'Bitwise(BitsInteger(16, signed=True, swapped=True))', 'CString("utf8")', 'PascalString(Byte, "ascii")',
              'PaddedString(4, "utf8")', 'GreedyString("utf_16_le")', 'Mapping(Byte, {"a": 1})', 'Const(2, Byte)', 'Hex(Int16ub)', 'Padded(4, Int16ub)', 'Aligned(4, Float32b)',
              'Prefixed(Byte, Float16b)', 'NullTerminated(Int16ub)', 'ByteSwapped(Float32l)', 'Default(Float32b, 1.0)', 'Rebuild(Float16b, 1e9)', 'Rebuild(Float32l, -1e39)',
              'Optional(Float32b)', 'Select(Float16b, Float32b)', 'OneOf(Float32b, [1.0])', 'IfThenElse(True, Float32l, Byte)', 'Switch(1, {1: Float16l})', 'Pointer(1, Float32b)',
